@@ -130,8 +130,9 @@ def oracle(text, opts=None, accessors=True):
         except Exception as e:  # noqa
             import traceback
             tb = traceback.extract_tb(e.__traceback__)
-            site = next((f'{fr.filename.rsplit("/", 1)[-1]}:{fr.name}' for fr in reversed(tb) if '/sqlparse/' in fr.filename), '?')
-            return {'input': inp, 'options': opts, 'call': 'format', 'site': site,
+            frames = [f'{fr.filename.rsplit("/", 1)[-1]}:{fr.name}' for fr in tb if '/sqlparse/' in fr.filename]
+            site = frames[-1] if frames else '?'
+            return {'input': inp, 'options': opts, 'call': 'format', 'site': site, 'frames': frames[-6:],
                     'class': 'exception:' + type(e).__name__ + ':format:' + site,
                     'observed': f'format(**{opts}) raised {type(e).__name__} at {site}: {str(e)[:100]}'}
     return None
@@ -151,7 +152,8 @@ CLASS_PRED = {
     'get-window-no-over': lambda f: f.get('class', '') == 'accessor:Function.get_window:AttributeError',
     # AlignedIndentFilter._process_case: a Case group without a proper END / with a nested Where
     'aligned-case-end-swallowed': lambda f: f.get('call') == 'format' and 'ValueError' in f.get('class', '')
-    and 'aligned_indent' in f.get('site', '') and f.get('options', {}).get('reindent_aligned')
+    and any(fr == 'aligned_indent.py:_process_case' for fr in f.get('frames', [f.get('site', '')]))
+    and 'None is not in list' in f.get('observed', '') and f.get('options', {}).get('reindent_aligned')
     and re.search(r'\bcase\b', _txt(f), re.I) is not None,
 }
 
